@@ -33,6 +33,28 @@ def squash(s):
     return " ".join(s.split())
 
 
+STATES = ("open", "locked", "closed", "busy+locked", "shrunk")
+
+
+def prepare(pool, loop, state):
+    """Puts the pool into the state in which it is going to be served."""
+    from asyncio_taskpool import SimpleTaskPool
+
+    if state in ("busy+locked", "shrunk"):
+        if isinstance(pool, SimpleTaskPool):
+            pool.start(2)
+        else:
+            pool.apply(vw.work, num=2)
+        loop.run_idle()
+    if state == "shrunk":
+        pool.pool_size = 1  # below its occupancy
+    if state in ("locked", "closed", "busy+locked"):
+        pool.lock()
+    if state == "closed":
+        loop.create_task(pool.gather_and_close())
+        loop.run_idle()
+
+
 def run(tier, seed):
     t0 = time.time()
     viols = []
@@ -43,17 +65,19 @@ def run(tier, seed):
     for cls_name, cls in POOL_CLASSES.items():
         pub = public_members(cls)
         nonpub = nonpublic_members(cls)
-        for width in widths(tier):
+        combos = [(w_, "open") for w_ in widths(tier)] + [(w_, st) for st in STATES[1:] for w_ in (None, 80, 300)]
+        for width, state in combos:
             loop = fresh_loop()
             vw.ACTIVE = vw.Recorder(loop)
             pool = make_pool(cls_name, 3)
+            prepare(pool, loop, state)
             with cap.active():
                 s = Session(loop, pool, width)
                 loop.run_idle()
             hs = s.take()
             evaluations += 1
             if hs != [str(pool).encode() + b"\n"] or s.died():
-                viols.append({"key": "handshake", "cls": cls_name, "width": width, "reply": repr(hs)[:200], "session": s.died()})
+                viols.append({"key": "handshake", "cls": cls_name, "width": width, "state": state, "reply": repr(hs)[:200], "session": s.died()})
                 release_loop(loop)
                 continue
 
@@ -68,15 +92,15 @@ def run(tier, seed):
             # top-level help lists exactly the public commands
             out = ask("-h")
             if len(out) != 1:
-                viols.append({"key": "top-level help: not exactly one reply", "cls": cls_name, "width": width, "n": len(out)})
+                viols.append({"key": "top-level help: not exactly one reply", "cls": cls_name, "width": width, "state": state, "n": len(out)})
             elif width is None or width >= 40:
                 listed = squash(out[0])
                 for name in pub:
                     if name.replace("_", "-") not in listed:
-                        viols.append({"key": "public member missing from top-level help", "cls": cls_name, "width": width, "member": name})
+                        viols.append({"key": "public member missing from top-level help", "cls": cls_name, "width": width, "state": state, "member": name})
                 for name in nonpub:
                     if squash(" " + name.replace("_", "-") + " ") in (" " + listed + " ") and name.strip("_"):
-                        viols.append({"key": "non-public member listed in top-level help", "cls": cls_name, "width": width, "member": name})
+                        viols.append({"key": "non-public member listed in top-level help", "cls": cls_name, "width": width, "state": state, "member": name})
             first_answers = {}
             for name, member in pub.items():
                 cmd = name.replace("_", "-")
@@ -92,12 +116,12 @@ def run(tier, seed):
                     else:
                         ok = squash(doc) in squash(out[0])
                 if not ok:
-                    viols.append({"key": "public command not available / help wrong", "cls": cls_name, "width": width, "cmd": cmd, "reply": repr(out)[:300]})
+                    viols.append({"key": "public command not available / help wrong", "cls": cls_name, "width": width, "state": state, "cmd": cmd, "reply": repr(out)[:300]})
                 out2 = ask(cmd + " --help")
                 if out2 != out:
-                    viols.append({"key": "--help differs from -h", "cls": cls_name, "width": width, "cmd": cmd})
+                    viols.append({"key": "--help differs from -h", "cls": cls_name, "width": width, "state": state, "cmd": cmd})
                 if pool_obs(pool) != before:
-                    viols.append({"key": "help request changed the pool", "cls": cls_name, "width": width, "cmd": cmd})
+                    viols.append({"key": "help request changed the pool", "cls": cls_name, "width": width, "state": state, "cmd": cmd})
                 if len(samples) < 3 and width == 80:
                     samples.append({"class": cls_name, "terminal_width": width, "line": cmd + " -h", "reply": out[:1]})
             for name in nonpub:
@@ -111,15 +135,15 @@ def run(tier, seed):
                     # an error message, never a result
                     bad = not ("usage" in txt or "invalid choice" in txt or "error" in txt or "expected" in txt or "unrecognized" in txt)
                 if bad:
-                    viols.append({"key": "non-public member reachable as a command", "cls": cls_name, "width": width, "cmd": cmd, "reply": repr(out)[:300]})
+                    viols.append({"key": "non-public member reachable as a command", "cls": cls_name, "width": width, "state": state, "cmd": cmd, "reply": repr(out)[:300]})
             if s.died():
-                viols.append({"key": "session ended during enumeration", "cls": cls_name, "width": width, "how": s.died()})
+                viols.append({"key": "session ended during enumeration", "cls": cls_name, "width": width, "state": state, "how": s.died()})
             if width in (None, 80, 300):
                 # "from then on": a long session history must not wear the command surface out - here: one reply
                 # far longer than any help text (a usage error echoing a 6000-character argument), then all help again
                 long_out = ask("cancel " + "9" * 6000 + "x")
                 if len(long_out) != 1 or len(long_out[0]) < 4096:
-                    viols.append({"key": "long erroneous argument not echoed in one reply", "cls": cls_name, "width": width, "n": len(long_out)})
+                    viols.append({"key": "long erroneous argument not echoed in one reply", "cls": cls_name, "width": width, "state": state, "n": len(long_out)})
                 for cmd, want in first_answers.items():
                     got = ask(cmd + " -h")
                     if got != want:
@@ -132,7 +156,7 @@ def run(tier, seed):
                     loop.run_idle()
                 evaluations += 1
                 if s2.take() != [str(pool).encode() + b"\n"] or s2.died():
-                    viols.append({"key": "handshake of a second client", "cls": cls_name, "width": width, "session": s2.died()})
+                    viols.append({"key": "handshake of a second client", "cls": cls_name, "width": width, "state": state, "session": s2.died()})
                 else:
                     for cmd, want in first_answers.items():
                         with cap.active():
@@ -163,7 +187,7 @@ def run(tier, seed):
         "samples": samples,
         "wall": time.time() - t0,
         "rule": "every (pool class in {TaskPool, SimpleTaskPool, subclass of each with extra public members}) x "
-                "(terminal width in the tier's set incl. None, negative, 0, huge) x (every name in dir(cls)): public "
+                "(terminal width in the tier's set incl. None, negative, 0, huge; widths None/80/300 also for a pool that is locked, closed, busy and locked, shrunk below its occupancy when served) x (every name in dir(cls)): public "
                 "names (computed with inspect, independently of the parser) are sent as '<name-with-dashes> -h' and "
                 "'--help', non-public names without -h; distinct = distinct (class, command) pairs; all are non-trivial "
                 "(each exercises a different sub-parser or rejection path)",
@@ -176,6 +200,7 @@ def replay(v):
     loop = fresh_loop()
     vw.ACTIVE = vw.Recorder(loop)
     pool = make_pool(v["cls"], 3)
+    prepare(pool, loop, v.get("state", "open"))
     with cap.active():
         s = Session(loop, pool, v.get("width"))
         loop.run_idle()
